@@ -288,10 +288,45 @@ func (x *run) exec(op *OpJS) {
 		if op.Verdicts[0] == VOk {
 			x.fail("validate:accepted-"+op.Bad, "a transaction with "+op.Bad+" was accepted")
 		}
-		if !sameContent(prev, s) {
-			x.fail("validate:rejected-tx-changed-pool", "the pool content changed although the only transaction was rejected ("+op.Bad+")")
+		x.monitorRejected(prev, s, op)
+	}
+}
+
+// monitorRejected: what must hold after a call whose only transaction was refused.
+//  1. the refused transaction is in no index (lists, hash index, price heaps): required by
+//     the clause "the hash index, price index and per-account lists hold the same
+//     transactions" -- every transaction of the harness is in the universe, a refused one is
+//     not, so it shows up as a foreign entry;
+//  2. the pool content did not change. This is true of every refusal that happens before
+//     TxPool.add reaches its pool-full branch (known / signature / validateTx). A refusal
+//     AFTER the pool-full branch has evicted pooled transactions to make room (go-quai: the
+//     final types.Sender in add, the replacement rule) leaves them evicted: reported under
+//     its own signature, with the kind of the refused transaction.
+func (x *run) monitorRejected(prev, cur *Snap, op *OpJS) {
+	if cur.foreign > 0 {
+		x.fail("validate:rejected-tx-indexed:"+op.Bad, fmt.Sprintf("a refused transaction (%s) is held by the pool (%d entries are not transactions of the history)", op.Bad, cur.foreign))
+	}
+	if sameContent(prev, cur) {
+		return
+	}
+	cfg := x.r.pool.VerifC19Config()
+	full := uint64(len(prev.Locals)+len(prev.Remotes)+1) > cfg.GlobalSlots+cfg.GlobalQueue
+	before := map[int]bool{}
+	for _, id := range append(append([]int{}, prev.Locals...), prev.Remotes...) {
+		before[id] = true
+	}
+	onlyRemovals := true
+	for _, id := range append(append([]int{}, cur.Locals...), cur.Remotes...) {
+		if !before[id] {
+			onlyRemovals = false
 		}
 	}
+	if full && onlyRemovals {
+		x.fail("validate:rejected-tx-evicted-pooled:pool-full:"+op.Bad, fmt.Sprintf("the pool was full (%d of %d); a transaction that was then refused (%s) evicted pooled transactions: indexed before %v %v, after %v %v",
+			len(prev.Locals)+len(prev.Remotes), cfg.GlobalSlots+cfg.GlobalQueue, op.Bad, prev.Locals, prev.Remotes, cur.Locals, cur.Remotes))
+		return
+	}
+	x.fail("validate:rejected-tx-changed-pool", "the pool content changed although the only transaction was rejected ("+op.Bad+")")
 }
 
 func sameContent(a, b *Snap) bool {
